@@ -120,7 +120,11 @@ func qopts(sc *scn.Scenario) *promql.QueryOpts {
 func Create(e QueryEngine, st storage.Queryable, sc *scn.Scenario) (promql.Query, error) {
 	q := sc.Query()
 	if sc.IsInstant() {
-		return e.NewInstantQuery(st, qopts(sc), q, sc.Time(sc.Start))
+		ts := sc.Time(sc.Start)
+		if subMilli(sc) {
+			ts = ts.Add(700 * time.Microsecond)
+		}
+		return e.NewInstantQuery(st, qopts(sc), q, ts)
 	}
 	step := sc.Dur(sc.Step)
 	if ns := sc.CfgInt("stepns", 0); ns > 0 {
@@ -128,10 +132,22 @@ func Create(e QueryEngine, st storage.Queryable, sc *scn.Scenario) (promql.Query
 		step = time.Duration(ns)
 	}
 	start, end := sc.Time(sc.Start), sc.Time(sc.End)
+	if subMilli(sc) {
+		// the API takes time.Time values: a fraction of a millisecond on either end (more on the start than
+		// on the end) belongs to the same millisecond
+		start, end = start.Add(900*time.Microsecond), end.Add(100*time.Microsecond)
+	}
 	if sc.CfgInt("swap", 0) == 1 {
 		start, end = end, start
 	}
 	return e.NewRangeQuery(st, qopts(sc), q, start, end, step)
+}
+
+// subMilli: one scenario in four (by id) is asked for with sub-millisecond fractions on its window.
+func subMilli(sc *scn.Scenario) bool {
+	h := fnv.New32a()
+	h.Write([]byte(sc.ID))
+	return (h.Sum32()>>7)%4 == 0
 }
 
 // PathOf classifies the query object returned by the engine under test.
